@@ -16,14 +16,14 @@ class Holder:
     def __init__(self, ctx, fx, rule):
         self.fx = fx
         self.ok = False
-        self.present = fx.fn(PRESENT)
-        self.new = fx.fn(HNEW)
+        self.present = fx.view(PRESENT) if fx.fn(PRESENT) is not None else None
+        self.new = fx.view(HNEW) if fx.fn(HNEW) is not None else None
         if self.present is None or self.new is None:
             ctx.missing(rule, PRESENT, "holder entry points not found")
             return
         self.g = cg.build(fx)
         # selection entry: the crate-local call whose result is assigned to hs_disclosures
-        ws = [w for w in (common.struct_field_writes(fx, HSTRUCT, "hs_disclosures") or []) if w["fn"] is self.present and w["how"] in ("assign", "calldest")]
+        ws = [w for w in (common.struct_field_writes(fx, HSTRUCT, "hs_disclosures", fns=[self.present]) or []) if w["how"] in ("assign", "calldest")]
         self.sel_entry = None
         for w in ws:
             v = peel(w["value"])
@@ -31,14 +31,14 @@ class Holder:
                 v = peel(v.kids[0])
             v = common._outcome_root(v)
             if v.kind == "call" and v.d["term"].get("resolved_local"):
-                self.sel_entry = fx.fn(v.d["term"]["resolved"])
+                self.sel_entry = fx.view(v.d["term"]["resolved"])
                 self.sel_call = v
         if self.sel_entry is None:
             ctx.missing(rule, "selection", "create_presentation does not assign hs_disclosures from a crate-local selection function")
             return
-        self.sel_fns = [fx.fns[n] for n in sorted(cg.reachable_from(self.g, [self.sel_entry.name])) if n.startswith("holder::") and fx.fns[n].kind != "closure"
+        self.sel_fns = [fx.view(n) for n in sorted(cg.reachable_from(self.g, [self.sel_entry.name])) if n.startswith("holder::") and fx.fns[n].kind != "closure"
                         and (fx.fns[n].raw.get("ret_ty") or "").startswith("std::result::Result<" + VEC_S)]
-        self.sel_all = [fx.fns[n] for n in sorted(cg.reachable_from(self.g, [self.sel_entry.name])) if n.startswith("holder::")]
+        self.sel_all = [fx.view(n) for n in sorted(cg.reachable_from(self.g, [self.sel_entry.name])) if n.startswith("holder::")]
         self.ok = True
 
     def result_vec(self, fn):
